@@ -42,6 +42,8 @@ func c09Run(c c09Case) (string, string) {
 		switch {
 		case strings.HasPrefix(c.Fault, "rcpt:") && stage == "rcpt" && strings.EqualFold(arg, c.Fault[5:]):
 			return peers.Err(550, [3]int{5, 1, 1}, "no such user")
+		case strings.HasPrefix(c.Fault, "rcpt421:") && stage == "rcpt" && strings.EqualFold(arg, c.Fault[8:]):
+			return peers.Err(421, [3]int{4, 4, 2}, "closing the channel")
 		case c.Fault == "data4" && stage == "data":
 			return peers.Err(451, [3]int{4, 3, 0}, "try later")
 		case c.Fault == "data5" && stage == "data":
@@ -164,7 +166,7 @@ func c09InEarlier(h [][]string, a string) bool {
 func TestVerifC09(t *testing.T) {
 	r := vx.Start("C09", "remote")
 	defer r.Finish()
-	r.Rule("histories of 1-2 (quick) / 1-3 (thorough) consecutive transactions through one real remote target (pooled connections) to scripted MX servers for two recipient domains; recipient lists of 1-2 from {ASCII, upper-case, IDN U-label, A-label, non-ASCII local part, second mailbox}; next hop with / without SMTPUTF8; message with / without SMTPUTF8; faults {none, RCPT refused for one address, DATA 4xx, DATA 5xx, connection dropped at DATA, connection dropped at the RCPT of one address}; oracle: the multiset of SetStatus keys of each transaction equals, as exact strings, the addresses for which AddRcpt returned nil in that transaction. Non-trivial: distinct cases with a fault, a conversion or a reused connection")
+	r.Rule("histories of 1-2 (quick) / 1-3 (thorough) consecutive transactions through one real remote target (pooled connections) to scripted MX servers for two recipient domains; recipient lists of 1-2 from {ASCII, upper-case, IDN U-label, A-label, non-ASCII local part, second mailbox}; next hop with / without SMTPUTF8; message with / without SMTPUTF8; faults {none, RCPT refused for one address, DATA 4xx, DATA 5xx, connection dropped at DATA, connection dropped at the RCPT of one address, 421 at the RCPT of one address}; oracle: the multiset of SetStatus keys of each transaction equals, as exact strings, the addresses for which AddRcpt returned nil in that transaction. Non-trivial: distinct cases with a fault, a conversion or a reused connection")
 	if rp := r.Replay(); rp != nil {
 		var c c09Case
 		if json.Unmarshal(rp, &c) != nil {
@@ -210,7 +212,7 @@ func TestVerifC09(t *testing.T) {
 			}
 		}
 	}
-	faults := []string{"", "rcpt:a@example.org", "rcpt:b@xn--e1afmkfd.xn--p1ai", "data4", "data5", "drop-data", "droprcpt:d@example.org"}
+	faults := []string{"", "rcpt:a@example.org", "rcpt:b@xn--e1afmkfd.xn--p1ai", "data4", "data5", "drop-data", "droprcpt:d@example.org", "rcpt421:d@example.org"}
 	idx := 0
 	for _, h := range hists {
 		for _, f := range faults {
